@@ -36,7 +36,7 @@ Record cfg := mkcfg {
   g_changes     : bool;        (* TransactionChangesPlugin             *)
   g_classes     : list clscfg }.
 
-Definition dflt_cls : clscfg := mkcls false false 0 [] [].
+Definition dflt_cls : clscfg := mkcls false false (-1) [] [].
 Definition cls_of (g : cfg) (c : nat) : clscfg := nth c (g_classes g) dflt_cls.
 
 (* ------------------------------------------------------------------ events *)
@@ -218,6 +218,21 @@ Definition flags_now (g : cfg) (cc : clscfg) (o : oper) : list bool :=
            (proj (dat_flags cc) (op_colchg o ++ repeat false (length (k_cols cc))))
   else [].
 
+(* get_or_create_version_object + assign_attributes + plugins + update_version_validity on the
+   version tables: `known` = the version object is in version_objs (updated in place), otherwise a
+   new row is inserted *)
+Definition write_row (known : bool) (vt : vtable) (k : pk) (T : Z) (kind : Z) (dat : list val)
+                     (fl : list bool) (validity : bool) : vtable :=
+  let vt1 :=
+    if known
+    then map (fun r => if is_row k T r then mkv k T (vend r) kind dat (orb_list (vmod r) fl) else r) vt
+    else vt ++ [mkv k T None kind dat fl] in
+  if validity then close_pred vt1 k T else vt1.
+
+Definition op_dat (g : cfg) (cc : clscfg) (o : oper) : list val :=
+  let dat0 := dat_of cc (op_vals o) in
+  if g_null_delete g && (op_kind o =? OP_DEL) then map (fun _ => None) dat0 else dat0.
+
 (* process_operation; returns the new version tables, the new version_objs keys and an error flag *)
 Definition process_op (g : cfg) (T : Z) (acc : vtable * list (pk * Z) * bool) (o : oper)
   : vtable * list (pk * Z) * bool :=
@@ -225,18 +240,11 @@ Definition process_op (g : cfg) (T : Z) (acc : vtable * list (pk * Z) * bool) (o
   if op_proc o then acc else
   let cc := cls_of g (op_cls o) in
   let k := k_tab cc :: op_key o in
-  let dat0 := dat_of cc (op_vals o) in
-  let dat := if g_null_delete g && (op_kind o =? OP_DEL) then map (fun _ => None) dat0 else dat0 in
-  let fl := flags_now g cc o in
   let known := existsb (fun i => pk_eqb (fst i) k && (snd i =? T)) vobjs in
   let present := existsb (is_row k T) vt in
-  let vt1 :=
-    if known
-    then map (fun r => if is_row k T r
-                       then mkv k T (vend r) (op_kind o) dat (orb_list (vmod r) fl) else r) vt
-    else vt ++ [mkv k T None (op_kind o) dat fl] in
-  let vt2 := if k_validity cc then close_pred vt1 k T else vt1 in
-  (vt2, if known then vobjs else vobjs ++ [(k, T)], err || (negb known && present)).
+  (write_row known vt k T (op_kind o) (op_dat g cc o) (flags_now g cc o) (k_validity cc),
+   if known then vobjs else vobjs ++ [(k, T)],
+   err || (negb known && present)).
 
 (* create_association_versions (after the repair of finding 11): one row per (table, pair, T) *)
 Definition same_a (p : assoc_ev) (T : Z) (r : arow) : bool :=
